@@ -15846,6 +15846,10 @@ func (p *PathAttributePmsiTunnel) Serialize(options ...*MarshallingOption) ([]by
 		return nil, err
 	}
 	buf = append(buf, tbuf...)
+	if p.TunnelID == nil {
+		// attribute whose decoding failed (it stays in a treat-as-withdraw UPDATE)
+		return nil, errors.New("PMSI tunnel attribute without tunnel identifier")
+	}
 	tbuf, err = p.TunnelID.Serialize()
 	if err != nil {
 		return nil, err
@@ -15865,6 +15869,10 @@ func (p *PathAttributePmsiTunnel) String() string {
 }
 
 func (p *PathAttributePmsiTunnel) MarshalJSON() ([]byte, error) {
+	tunnelID := ""
+	if p.TunnelID != nil {
+		tunnelID = p.TunnelID.String()
+	}
 	return json.Marshal(struct {
 		Type               BGPAttrType `json:"type"`
 		IsLeafInfoRequired bool        `json:"is-leaf-info-required"`
@@ -15876,7 +15884,7 @@ func (p *PathAttributePmsiTunnel) MarshalJSON() ([]byte, error) {
 		IsLeafInfoRequired: p.IsLeafInfoRequired,
 		TunnelType:         uint8(p.TunnelType),
 		Label:              p.Label,
-		TunnelID:           p.TunnelID.String(),
+		TunnelID:           tunnelID,
 	})
 }
 
